@@ -23,7 +23,20 @@ impl   : pysph.solver.application.Application.run(argv) on small problems
          counts/densities accumulated over all summations).  Here
          the algorithms that bin with radius_scale*max(h) (ll, box, sh, esh,
          ci, sfc, strat_*) are compared with the octrees, which do not use the
-         cell size: the reference run of this problem is --nnps tree
+         cell size: the reference run of this problem is --nnps tree; and
+         multires / multires_big (two-array tank; h constant in time but not
+         uniform in space: wall h = 1.5 dx, fluid h = dx +-10% with isolated
+         particles of 1.6-3 dx, the largest next to the centre lines of the
+         bounding box; lattice order).  On these every --nnps value runs with
+         --fixed-h and with non-default tuning options (--stratified-grid-
+         num-levels, --tree-leaf-max-particles, --spatial-hash-table-size,
+         --spatial-hash-sub-factor), which configure the search and must not
+         change the state; and the structures that the library itself builds
+         inside OpenMP regions (octrees: threaded whenever OMP_NUM_THREADS > 1,
+         with or without --openmp; neighbour cache) are rebuilt 48 times per
+         run under 3..16 threads with two OpenMP wait policies ('passive':
+         threads of a region start tens of microseconds apart; 'spin': they
+         start together, so that short loops of different threads overlap)
 oracle : the property statement itself, evaluated on the final particle
          arrays matched by gid:
            * every configuration == the plain baseline (--nnps ll - for rarefy
@@ -42,6 +55,11 @@ model  : Model/Determinism.lean at Float through the driver: the per-destination
          executed under random thread partitions and interleavings, must equal
          bit for bit what the generated (OpenMP or serial) loop computed; the
          model's neighbour sort must equal NNPS._sort_neighbors.
+         Model/TreeReduce.lean at Float: the level-1 hmax table of the
+         (parallel, per-thread tables + merge) octree build under the static
+         chunks of T threads and a random interleaving must equal bit for bit
+         the hmax stored in the level-1 children of Octree / CompressedOctree
+         built under T = 1..16 threads, 12 builds each ('treetie').
 """
 import json
 import math
@@ -86,7 +104,44 @@ STRATIFIED = ('strat_hash', 'strat_sfc')
 BASE_NNPS = {'rarefy': 'tree'}       # default: 'll'
 PAIRWISE = ('rarefy',)               # also compared with each other
 MULTI_ARRAY = {'wall': True, 'block': False, 'periodic': False, 'tie': True,
-               'gtvf': False, 'rarefy': False}
+               'gtvf': False, 'rarefy': False, 'multires': True,
+               'multires_big': True}
+# 'multires': smoothing lengths that are constant in time but NOT uniform in
+# space: the wall array carries a larger h than the fluid, the fluid's h varies
+# smoothly by +-10% and a few isolated particles carry 1.6 .. 3 times the
+# h of their surroundings (the largest ones sit next to the centre lines of
+# the fluid's bounding box, i.e. next to the faces of the octree's level-1
+# children and of the coarsest cells of the other algorithms).  Every other
+# particle within radius_scale*h_spot of such a particle is its neighbour ONLY
+# through the scatter radius (r < k*h_j, r >= k*h_i), and the per-cell /
+# per-node maximum of h is attained by ONE particle.  The array is handed over
+# in lattice order (the usual way) and is large enough that the static OpenMP
+# chunks of the (always threaded) octree build work on the same octant at the
+# same time; 24 steps = 48 rebuilds of every search structure per run.
+# Two sizes: 'multires' (32x32 fluid particles, 6 steps: every --nnps value x
+# --fixed-h x tuning knobs; StratifiedHashNNPS needs seconds per step on the
+# large one) and 'multires_big' (96x96, 24 steps: thread sweeps).
+MR_NF = {'multires': 32, 'multires_big': 96}
+MR_STEPS = {'multires': 6, 'multires_big': 24}
+MR_DX = 0.01
+MR_WALL_H = 1.5
+# Application options that configure the neighbour search without being part
+# of its result (held equal or varied, the state must not change):
+#   --fixed-h (smoothing lengths constant in TIME; forwarded to the NNPS
+#   constructors and to the integrator), and the tuning knobs of the algorithms
+KNOB_FLAGS = {'num_levels': '--stratified-grid-num-levels',
+              'leaf_max': '--tree-leaf-max-particles',
+              'table_size': '--spatial-hash-table-size',
+              'sub_factor': '--spatial-hash-sub-factor'}
+KNOB_VALUES = {'num_levels': (1, 2, 3, 4), 'leaf_max': (2, 4, 10, 32, 64),
+               'table_size': (131072, 4099, 257), 'sub_factor': (1, 2, 3, 4)}
+KNOBS_OF = {'strat_hash': ('num_levels', 'table_size'),
+            'strat_sfc': ('num_levels',),
+            'tree': ('leaf_max',), 'comp_tree': ('leaf_max',),
+            'sh': ('table_size',), 'esh': ('table_size', 'sub_factor')}
+# problems whose h really is constant in time (--fixed-h is a true statement)
+FIXED_H_OK = ('wall', 'block', 'periodic', 'gtvf', 'multires',
+              'multires_big', 'tie')
 HERE = os.path.abspath(__file__)
 
 
@@ -151,6 +206,9 @@ def make_arrays(problem, seed):
                                 h=np.ones_like(xs) * 1.3 * dx,
                                 m=dx * dx * rho0 * (1.0 + _jitter(rng, len(xs), 0.01)),
                                 rho=rho0 * (1.0 + _jitter(rng, len(xs), 0.01)))
+        arrs = [fl, so]
+    elif problem in MR_NF:
+        fl, so = multires_arrays(rng, MR_NF[problem])
         arrs = [fl, so]
     elif problem == 'periodic':
         # 2D doubly periodic box, Taylor-Green like velocity field
@@ -219,6 +277,67 @@ def make_arrays(problem, seed):
 GTVF_N = 20
 GTVF_HDX = 1.0
 GTVF_C0 = 10.0
+
+
+def multires_h(rng, nf, dx, x, y):
+    """smoothing lengths of the 'multires' fluid (lattice index = i*nf + j):
+    smooth +-10% field, plus isolated large-h particles; returns h and the
+    lattice indices of the spots"""
+    L = nf * dx
+    h = dx * (1.0 + 0.1 * np.sin(7.0 * x / L) * np.cos(5.0 * y / L))
+    lo, hi = nf // 2 - 1, nf // 2
+    spots = {}
+    # one per quadrant next to the centre of the bounding box: the largest
+    for i in (lo, hi):
+        for j in (lo, hi):
+            spots[i * nf + j] = 3.0
+    # next to the two centre lines, away from the centre
+    for _ in range(6):
+        a = int(rng.randint(2, nf - 2))
+        b = int(rng.choice((lo, hi)))
+        k = a * nf + b if rng.random_sample() < 0.5 else b * nf + a
+        spots.setdefault(k, 2.2 + 0.6 * rng.random_sample())
+    # anywhere
+    for _ in range(10):
+        k = int(rng.randint(0, nf * nf))
+        spots.setdefault(k, 1.6 + 0.8 * rng.random_sample())
+    for k, f in spots.items():
+        h[k] = f * dx
+    return h, sorted(spots)
+
+
+def multires_arrays(rng, nf):
+    from pysph.base.utils import get_particle_array
+    dx = MR_DX
+    g = np.mgrid[0:nf, 0:nf].reshape(2, -1).astype(float) * dx
+    x = g[0] + dx + _jitter(rng, nf * nf, 0.05 * dx)
+    y = g[1] + dx + _jitter(rng, nf * nf, 0.05 * dx)
+    rho0 = 1000.0
+    h, _ = multires_h(rng, nf, dx, x, y)
+    m = dx * dx * rho0 * (1.0 + _jitter(rng, nf * nf, 0.01))
+    u = 0.5 * np.sin(5.0 * y) + _jitter(rng, nf * nf, 0.02)
+    v = -0.5 * np.cos(4.0 * x)
+    fl = get_particle_array(name='fluid', x=x, y=y, h=h, m=m,
+                            rho=rho0 * (1.0 + _jitter(rng, nf * nf, 0.01)),
+                            u=u, v=v)
+    # open tank, 3 layers, h = 1.5 dx: a second array with ANOTHER h
+    nl = 3
+    pts = []
+    for i in range(-nl, nf + nl):
+        for j in range(-nl, 0):
+            pts.append((i * dx + dx, j * dx + dx))
+    for j in range(0, nf + 4):
+        for i in range(-nl, 0):
+            pts.append((i * dx + dx, j * dx + dx))
+        for i in range(nf, nf + nl):
+            pts.append((i * dx + dx, j * dx + dx))
+    pts = np.array(pts)
+    xs, ys = pts[:, 0].copy(), pts[:, 1].copy()
+    so = get_particle_array(name='solid', x=xs, y=ys,
+                            h=np.ones_like(xs) * MR_WALL_H * dx,
+                            m=dx * dx * rho0 * (1.0 + _jitter(rng, len(xs), 0.01)),
+                            rho=rho0 * (1.0 + _jitter(rng, len(xs), 0.01)))
+    return fl, so
 
 
 def assign_gids(arrs):
@@ -345,6 +464,16 @@ def make_app(problem, seed, outdir, assign_gid=True):
                                 alpha=0.1, beta=0.0, gamma=7.0)
                 s.configure_solver(dt=0.125 * 1.3 * dx / c0, tf=1.0)
                 return s
+        elif problem in MR_NF:
+            def create_scheme(self):
+                # the same scheme (and so the same generated module) as 'wall'
+                dx = MR_DX
+                c0 = 30.0
+                s = WCSPHScheme(['fluid'], ['solid'], dim=2, rho0=1000.0,
+                                c0=c0, h0=dx, hdx=1.0, gy=-9.81,
+                                alpha=0.1, beta=0.0, gamma=7.0)
+                s.configure_solver(dt=0.125 * dx / c0, tf=1.0)
+                return s
         elif problem == 'periodic':
             def create_scheme(self):
                 dx = 1.0 / 16
@@ -432,6 +561,10 @@ def argv_of(spec, outdir, openmp_flag):
         a.append('--sort-gids')
     if spec['reorder'] is not None:
         a += ['--reorder-freq', str(spec['reorder'])]
+    if spec.get('fixed_h'):
+        a.append('--fixed-h')
+    for k, v in sorted((spec.get('knobs') or {}).items()):
+        a += [KNOB_FLAGS[k], str(v)]
     if spec['openmp'] is True and openmp_flag:
         a.append('--openmp')
     elif spec['openmp'] is False:
@@ -462,10 +595,91 @@ def collect(arrs):
     return out
 
 
+TREE_THREADS = [1, 2, 3, 5, 8, 16]
+TREE_BUILDS = 12
+
+
+def tree_clouds(seed):
+    """particle arrays for the octree tie: the 'multires' fluid (2D lattice
+    order, isolated large-h particles) and a 3D cloud in random order"""
+    from pysph.base.utils import get_particle_array
+    rng = np.random.RandomState(1000003 * (seed % 1000) + 29)
+    fl, _ = multires_arrays(rng, 64)
+    n = 3000
+    x, y, z = (rng.random_sample(n) for _ in range(3))
+    h = 0.03 * (1.0 + 0.2 * rng.random_sample(n))
+    for k in rng.randint(0, n, 12):
+        h[k] *= 2.0 + 2.0 * rng.random_sample()
+    cl = get_particle_array(name='cloud', x=x, y=y, z=z, h=h)
+    return [('lattice2d', fl), ('cloud3d', cl)]
+
+
+def _leaves_under(node, tree, out):
+    if node.is_leaf:
+        out.extend(int(i) for i in node.get_indices(tree).get_npy_array())
+        return
+    for ch in node.get_children():
+        if ch is not None:
+            _leaves_under(ch, tree, out)
+
+
+def tree_trace(spec):
+    """level-1 children of freshly built octrees under several thread
+    counts: octant of every particle (from the tree itself) and the hmax the
+    build stored in each level-1 child, TREE_BUILDS builds each"""
+    from pysph.base.octree import Octree, CompressedOctree
+    try:
+        from pysph.base.omp_threads import set_number_of_threads
+    except ImportError:
+        set_number_of_threads = None
+    recs = []
+    for cname_, pa in tree_clouds(spec['seed']):
+        n = pa.get_number_of_particles()
+        hs = [float(v) for v in pa.h]
+        for cls in (Octree, CompressedOctree):
+            for T in spec['tree_threads']:
+                if set_number_of_threads is None and T != 1:
+                    continue
+                if set_number_of_threads is not None:
+                    set_number_of_threads(T)
+                tables = {}
+                octs = None
+                err = None
+                for k in range(spec['tree_builds']):
+                    t = cls(spec['leaf_max'])
+                    t.build_tree(pa)
+                    kids = t.get_root().get_children()
+                    tab = [float(c.hmax) if c is not None else 0.0
+                           for c in kids]
+                    key = ','.join(H.fbits(v) for v in tab)
+                    tables[key] = tables.get(key, 0) + 1
+                    if k == 0:
+                        octs = [-1] * n
+                        for o, c in enumerate(kids):
+                            if c is None:
+                                continue
+                            ids = []
+                            _leaves_under(c, t, ids)
+                            for i in ids:
+                                octs[i] = o
+                        if min(octs) < 0:
+                            err = 'particles in no level-1 child'
+                    t.delete_tree()
+                recs.append({'cloud': cname_, 'cls': cls.__name__, 'T': T,
+                             'n': n, 'h': hs, 'oct': octs, 'tables': tables,
+                             'err': err})
+    return recs
+
+
 def worker(spec_file):
     spec = json.load(open(spec_file))
     H.assert_scratch_import()
     info = {}
+    if spec['problem'] == 'treetie':
+        info['tree'] = tree_trace(spec)
+        np.savez(spec['out'], dummy=np.zeros(1))
+        json.dump(info, open(spec['out'] + '.json', 'w'))
+        return
     from compyle.config import get_config
     outdir = spec['outdir']
     os.makedirs(outdir, exist_ok=True)
@@ -485,6 +699,9 @@ def worker(spec_file):
     info['sort_gids'] = bool(app.nnps.sort_gids) if hasattr(
         app.nnps, 'sort_gids') else None
     info['reorder_freq'] = int(app.solver.reorder_freq)
+    info['fixed_h'] = bool(app.solver.fixed_h) and \
+        bool(app.solver.integrator.fixed_h)
+    info['omp_wait'] = os.environ.get('OMP_WAIT_POLICY', 'default')
     info['count'] = int(app.solver.count)
     info['ae_threads'] = int(
         app.solver.acceleration_evals[0].c_acceleration_eval.n_threads)
@@ -544,11 +761,44 @@ def tie_trace(app, spec):
 # parent side
 
 def cfg(problem, nnps='ll', cache=False, openmp=False, threads=1, reorder=None,
-        sort=False, steps=4, rep=0, assign_gid=True):
+        sort=False, steps=4, rep=0, assign_gid=True, fixed_h=False, knobs=None,
+        wait='passive', env_threads=0):
+    """env_threads > 0 (only without --openmp): OMP_NUM_THREADS of the process
+    although the evaluation is serial - the parts of the library that are
+    compiled with OpenMP (octree build, neighbour cache) are threaded whenever
+    the environment offers threads, whatever --openmp says.
+    wait: 'passive' = idle OpenMP threads sleep (threads of one parallel
+    region start tens of microseconds apart), 'spin' = libgomp's default
+    (idle threads spin for a while: the threads of a region start together,
+    so that short loops really overlap in time) - two families of schedules"""
     return {'problem': problem, 'nnps': nnps, 'cache': bool(cache),
             'openmp': openmp, 'threads': int(threads), 'reorder': reorder,
             'sort': bool(sort), 'steps': int(steps), 'rep': int(rep),
-            'assign_gid': bool(assign_gid)}
+            'assign_gid': bool(assign_gid), 'fixed_h': bool(fixed_h),
+            'knobs': dict(knobs or {}), 'wait': wait,
+            'env_threads': 0 if openmp else int(env_threads)}
+
+
+def omp_threads_of(c):
+    """OMP_NUM_THREADS of the process that runs configuration c"""
+    return int(c['threads'] if c['openmp'] else (c.get('env_threads') or 1))
+
+
+def norm_cfg(c):
+    """a configuration written by an older version of this harness (replay
+    files) lacks the newer keys"""
+    d = cfg(c['problem'])
+    d.update(c)
+    return d
+
+
+def rand_knobs(rng, nn, p=0.6):
+    """non-default values of the tuning options of algorithm `nn`"""
+    out = {}
+    for k in KNOBS_OF.get(nn, ()):
+        if rng.random() < p:
+            out[k] = rng.choice(KNOB_VALUES[k])
+    return out
 
 
 def base_cfg(problem, steps):
@@ -557,11 +807,15 @@ def base_cfg(problem, steps):
 
 
 def cname(c):
-    return '%s/%s%s%s/%s/r%s%s%s%s' % (
+    return '%s/%s%s%s%s%s/%s%s%s/r%s%s%s%s' % (
         c['problem'], c['nnps'], '+cache' if c['cache'] else '',
         '+sort' if c['sort'] else '',
+        '+fixedh' if c.get('fixed_h') else '',
+        ''.join('+%s=%s' % kv for kv in sorted((c.get('knobs') or {}).items())),
         ('omp%d' % c['threads']) if c['openmp'] else (
             'noomp' if c['openmp'] is False else 'default'),
+        ('/envT%d' % c['env_threads']) if c.get('env_threads') else '',
+        '/spin' if c.get('wait', 'passive') != 'passive' else '',
         c['reorder'], '' if c['assign_gid'] else '/nogid',
         '/s%d' % c['steps'], ('#%d' % c['rep']) if c['rep'] else '')
 
@@ -595,15 +849,27 @@ def run_one(c, seed, work, idx):
     os.makedirs(d, exist_ok=True)
     spec = dict(c, seed=seed, outdir=os.path.join(d, 'out'),
                 out=os.path.join(d, 'res.npz'))
+    if c['problem'] == 'treetie':
+        spec.update(tree_threads=[T for T in TREE_THREADS
+                                  if T <= omp_threads_of(c)],
+                    tree_builds=TREE_BUILDS,
+                    leaf_max=(c.get('knobs') or {}).get('leaf_max', 10))
     sf = os.path.join(d, 'spec.json')
     json.dump(spec, open(sf, 'w'))
     env = dict(os.environ)
-    env['OMP_NUM_THREADS'] = str(c['threads'] if c['openmp'] else 1)
+    env['OMP_NUM_THREADS'] = str(omp_threads_of(c))
     # the machine is shared with other checks: idle OpenMP threads must sleep,
     # not spin (results do not depend on the wait policy)
-    env['OMP_WAIT_POLICY'] = 'passive'
-    env['GOMP_SPINCOUNT'] = '0'
-    need = min(BUDGET_TOTAL, c['threads'] if c['openmp'] else 1)
+    if c.get('wait', 'passive') == 'passive':
+        env['OMP_WAIT_POLICY'] = 'passive'
+        env['GOMP_SPINCOUNT'] = '0'
+    else:
+        # spin briefly, then sleep (libgomp's default is 300000 spins, which
+        # wastes a loaded machine: parallel regions that follow each other
+        # within ~0.1 ms still find the team spinning)
+        env.pop('OMP_WAIT_POLICY', None)
+        env['GOMP_SPINCOUNT'] = os.environ.get('C05_SPINCOUNT', '30000')
+    need = min(BUDGET_TOTAL, omp_threads_of(c))
     _BUDGET.acquire(need)
     t0 = time.time()
     try:
@@ -624,12 +890,18 @@ def run_one(c, seed, work, idx):
     return r
 
 
+# problems that generate the same extension module (same scheme, same array
+# names and properties): only one process may compile it
+MODULE_FAMILY = {'multires': 'wall', 'multires_big': 'wall'}
+
+
 def run_all(cfgs, seed, work, base_idx=0, par=8):
     """compile-sharing groups are warmed up by their first member, then the
     rest runs `par` at a time"""
     first = {}
     for i, c in enumerate(cfgs):
-        first.setdefault((c['problem'], c['openmp'] is True), i)
+        first.setdefault((MODULE_FAMILY.get(c['problem'], c['problem']),
+                          c['openmp'] is True), i)
     warm = sorted(first.values())
     res = [None] * len(cfgs)
     with ThreadPoolExecutor(max_workers=max(1, min(par, len(warm)))) as ex:
@@ -658,6 +930,8 @@ SCALES = {
     # (the neighbour count 'nn' is an integer below 2^53: scale = its largest
     # value, i.e. it has to agree exactly)
     'rarefy': dict(c0=RAREFY_RATE, rho0=1.0, L=1.0, dx=RAREFY_DX),
+    'multires': dict(c0=30.0, rho0=1000.0, L=1.0, dx=MR_DX),
+    'multires_big': dict(c0=30.0, rho0=1000.0, L=1.0, dx=MR_DX),
 }
 
 
@@ -760,6 +1034,15 @@ def differs_in(c, base):
         w.append('reorder')
     if c['sort'] != base['sort']:
         w.append('sort')
+    if bool(c.get('fixed_h')) != bool(base.get('fixed_h')):
+        w.append('fixed-h')
+    if (c.get('knobs') or {}) != (base.get('knobs') or {}):
+        w.append('knobs')
+    if (c.get('env_threads') or 0) != (base.get('env_threads') or 0):
+        w.append('env-threads')
+    if omp_threads_of(c) > 1 and omp_threads_of(base) > 1 and \
+            c.get('wait', 'passive') != base.get('wait', 'passive'):
+        w.append('omp-wait')
     return w
 
 
@@ -807,7 +1090,7 @@ def judge(results, R, seed):
     for r in results:
         by.setdefault(r['cfg']['problem'], []).append(r)
     for problem, rs in by.items():
-        if problem == 'tie':
+        if problem in ('tie', 'treetie'):
             continue
         ok = [r for r in rs if r['rc'] == 0 and 'data' in r]
         for r in rs:
@@ -842,7 +1125,8 @@ def judge(results, R, seed):
         for r in gidful:
             c = r['cfg']
             if c['sort'] and c['nnps'] == BASE_NNPS.get(problem, 'll') and \
-                    not c['reorder'] and \
+                    not c['reorder'] and not c.get('fixed_h') and \
+                    not c.get('knobs') and \
                     not c['cache'] and c['openmp'] is False:
                 sorted_ref = r
                 break
@@ -862,10 +1146,11 @@ def judge(results, R, seed):
                         'strat_sfc': 'StratifiedSFCNNPS'}[c['nnps']]
             obs = (i['nnps_class'], i['use_cache'], i['sort_gids'],
                    i['reorder_freq'], i['use_openmp'],
-                   i['ae_threads'] if c['openmp'] else 1, i['count'])
+                   i['ae_threads'] if c['openmp'] else 1, i['count'],
+                   i.get('fixed_h', False), i['n_threads'])
             dem = (want_cls, c['cache'], c['sort'], c['reorder'] or 0,
                    c['openmp'] is True, c['threads'] if c['openmp'] else 1,
-                   c['steps'])
+                   c['steps'], bool(c.get('fixed_h')), omp_threads_of(c))
             if obs != dem:
                 R.prop_fail('C05:option-not-honoured:%s' % problem,
                             {'cfg': c, 'seed': seed}, repr(dem), repr(obs))
@@ -910,6 +1195,14 @@ def judge(results, R, seed):
                 R.count('sort-gids')
             if c['reorder']:
                 R.count('reorder:%d' % c['reorder'])
+            if c.get('fixed_h'):
+                R.count('fixed-h')
+            for kk, vv in sorted((c.get('knobs') or {}).items()):
+                R.count('knob:%s=%s' % (kk, vv))
+            if omp_threads_of(c) > 1 and c.get('wait', 'passive') != 'passive':
+                R.count('omp-wait:spin')
+            if c.get('env_threads'):
+                R.count('env-threads:T%d' % c['env_threads'])
             nontrivial = bool(differs_in(c, base['cfg'])) or c['rep'] > 0
             R.case(cname(c), nontrivial,
                    {'cfg': cname(c), 'info': i, 'wall': round(r['wall'], 1)})
@@ -1069,6 +1362,68 @@ def run_tie(results, R, rng):
         R.case('tie:' + cname(mt[1]['cfg']) + ':' + str(mt[2]), True, None)
 
 
+def static_chunks(n, T):
+    """OpenMP schedule(static) without a chunk size: contiguous blocks, the
+    first n % T threads get one more iteration"""
+    q, r = divmod(n, T)
+    out, a = [], 0
+    for t in range(T):
+        b = a + q + (1 if t < r else 0)
+        out.append(list(range(a, b)))
+        a = b
+    return out
+
+
+def run_treetie(results, R, rng):
+    """Model/TreeReduce.lean (parHmax at Float under the static chunks of T
+    threads and a random interleaving) against the hmax the real parallel /
+    serial build stored in the level-1 children, every build"""
+    lines, metas = [], []
+    for r in results:
+        if r['cfg']['problem'] != 'treetie':
+            continue
+        if r['rc'] != 0 or 'info' not in r:
+            R.disagree({'cfg': r['cfg']}, 'n/a', 'octree tie run failed: ' +
+                       r['log'][-800:], 'treetie-run')
+            continue
+        for rec in r['info']['tree']:
+            if rec['err']:
+                R.disagree({'cfg': r['cfg'], 'cloud': rec['cloud'],
+                            'cls': rec['cls'], 'T': rec['T']}, 'n/a',
+                           rec['err'], 'treetie')
+                continue
+            n, T = rec['n'], rec['T']
+            chunks = static_chunks(n, T)
+            sched = [rng.randrange(T) for _ in range(rng.choice([0, n // 2, n]))]
+            lines.append('hmax oct=%s h=%s chunks=%s sched=%s' % (
+                H.ilist(rec['oct']), H.flist(rec['h']),
+                '|'.join(H.ilist(c) for c in chunks), H.ilist(sched)))
+            metas.append((r, rec))
+    if not lines:
+        return
+    out = H.run_model('C05', lines)
+    if len(out) != len(lines):
+        raise SystemExit('model driver answered %d lines for %d'
+                         % (len(out), len(lines)))
+    for o, (r, rec) in zip(out, metas):
+        tag = '%s/%s/T%d' % (rec['cloud'], rec['cls'], rec['T'])
+        R.count('tie-tree:%s:T%d' % (rec['cls'], rec['T']))
+        for tab, cnt in sorted(rec['tables'].items()):
+            R.d['traces_validated_against_impl'] += cnt
+            if tab != o:
+                R.disagree({'cfg': r['cfg'], 'case': tag,
+                            'builds_with_this_table': cnt,
+                            'builds': sum(rec['tables'].values())},
+                           o, tab, 'hmax of the level-1 children, ' + tag)
+        R.case('treetie:' + tag + ':leaf%s' % (
+            (r['cfg'].get('knobs') or {}).get('leaf_max', 10)), True, None)
+
+
+def treetie_cfgs(rng):
+    return [cfg('treetie', 'tree', env_threads=16, wait='spin', steps=0,
+                knobs={'leaf_max': rng.choice([4, 10, 32])})]
+
+
 # ---------------------------------------------------------------------------
 # configuration sets
 
@@ -1089,7 +1444,8 @@ def quick_cfgs(rng):
                 ro = None       # (known finding: no re-ordering for these)
             C.append(cfg(p, nn, cache=rng.random() < 0.5, openmp=omp,
                          threads=rng.choice([2, 3, 5, 8, 16]) if omp else 1,
-                         reorder=ro, sort=srt))
+                         reorder=ro, sort=srt, fixed_h=rng.random() < 0.25,
+                         knobs=rand_knobs(rng, nn, 0.4)))
     C.append(cfg(p, 'ci', openmp=True, threads=3, cache=True, reorder=2))
     C.append(cfg(p, 'comp_tree', sort=True, cache=True, openmp=True, threads=16))
     C.append(cfg(p, 'sh', reorder=1))   # known finding, reproduced every run
@@ -1099,7 +1455,8 @@ def quick_cfgs(rng):
          cfg('tie', 'sh', sort=True, cache=True, steps=1),
          cfg('tie', 'll', sort=True, cache=True, reorder=1, steps=1),
          cfg('tie', 'ci', openmp=True, threads=16, reorder=1, steps=1)]
-    return dedup(C + T + gtvf_cfgs(rng, 4) + rarefy_cfgs(rng))
+    return dedup(C + T + gtvf_cfgs(rng, 4) + rarefy_cfgs(rng) +
+                 multires_cfgs(rng) + treetie_cfgs(rng))
 
 
 REORDERABLE = [nn for nn in NNPS_ALL if nn not in NO_REORDER]
@@ -1116,10 +1473,13 @@ def gtvf_cfgs(rng, nrandom):
          cfg(p, 'tree', reorder=4, steps=S)]
     for k in range(nrandom):
         omp = k % 2 == 1
-        C.append(cfg(p, rng.choice(REORDERABLE), cache=rng.random() < 0.5,
+        nn = rng.choice(REORDERABLE)
+        C.append(cfg(p, nn, cache=rng.random() < 0.5,
                      openmp=omp, threads=rng.choice([2, 3, 5, 8]) if omp else 1,
                      reorder=rng.randint(2, GTVF_STEPS // 2),
-                     sort=rng.random() < 0.5, steps=S))
+                     sort=rng.random() < 0.5, steps=S,
+                     fixed_h=rng.random() < 0.3,
+                     knobs=rand_knobs(rng, nn, 0.4)))
     return C
 
 
@@ -1128,7 +1488,8 @@ def _rand_opts(rng, p, nn, S, sort=None):
     ro = rng.choice([None, None, 2, 3]) if nn in REORDERABLE else None
     return cfg(p, nn, cache=rng.random() < 0.5, openmp=omp,
                threads=rng.choice([2, 3, 5, 8]) if omp else 1, reorder=ro,
-               sort=(rng.random() < 0.5) if sort is None else sort, steps=S)
+               sort=(rng.random() < 0.5) if sort is None else sort, steps=S,
+               knobs=rand_knobs(rng, nn, 0.4))
 
 
 def rarefy_cfgs(rng, every=False):
@@ -1152,6 +1513,60 @@ def rarefy_cfgs(rng, every=False):
         C.append(_rand_opts(rng, p, rng.choice(GRID_BASED[1:]), S))
         C.append(_rand_opts(rng, p, rng.choice(GRID_BASED), S))
         C.append(_rand_opts(rng, p, rng.choice(STRATIFIED), S, sort=True))
+    return C
+
+
+MR_THREADS = [3, 4, 5, 6, 8, 12, 16]
+
+
+def multires_cfgs(rng, every=False):
+    """h constant in time but not uniform in space (two arrays with different
+    h, isolated large-h particles):
+      * 'multires': every --nnps value with --fixed-h and with non-default
+        tuning knobs (the other options drawn from the seed), against plain
+        --nnps ll;
+      * 'multires_big' (48 rebuilds per run): the structures that are built /
+        filled inside OpenMP regions of the library (octrees: always, whatever
+        --openmp says; neighbour cache) under >= 3 threads whose chunks
+        overlap in time ('spin'), sorted, each configuration twice:
+        bit-identical to the serial sorted run and to its own repetition"""
+    p, S = 'multires', MR_STEPS['multires']
+    C = [cfg(p, steps=S),                                   # baseline
+         cfg(p, 'll', sort=True, steps=S),                  # sorted reference
+         cfg(p, 'll', fixed_h=True, steps=S),               # the option alone
+         cfg(p, 'll', sort=True, fixed_h=True, cache=True, steps=S)]
+    for nn in NNPS_ALL:
+        a = _rand_opts(rng, p, nn, S)
+        a['fixed_h'] = True
+        b = _rand_opts(rng, p, nn, S, sort=True)
+        b['knobs'] = rand_knobs(rng, nn, 1.0)
+        C += [a, b]
+        for _ in range(3 if every else 0):
+            c = _rand_opts(rng, p, nn, S)
+            c['fixed_h'] = rng.random() < 0.5
+            c['knobs'] = rand_knobs(rng, nn)
+            C.append(c)
+    p, S = 'multires_big', MR_STEPS['multires_big']
+    C += [cfg(p, steps=S), cfg(p, 'll', sort=True, steps=S),
+          cfg(p, 'tree', sort=True, steps=S),
+          cfg(p, 'll', sort=True, fixed_h=True, steps=S)]
+    for nn in TREE_BASED:
+        for T in (MR_THREADS if every else rng.sample(MR_THREADS, 3)):
+            c = cfg(p, nn, openmp=True, threads=T, sort=True, steps=S,
+                    wait='spin', cache=rng.random() < 0.3,
+                    knobs=rand_knobs(rng, nn, 0.3))
+            C += [c, dict(c, rep=1)]
+        # threaded build under a serial evaluation
+        T = rng.choice(MR_THREADS)
+        c = cfg(p, nn, openmp=False, env_threads=T, sort=True, steps=S,
+                wait='spin')
+        C += [c, dict(c, rep=1)]
+    others = [nn for nn in GRID_BASED + STRATIFIED if nn != 'strat_hash']
+    for nn in (others if every else rng.sample(others, 2)):
+        c = cfg(p, nn, cache=True, openmp=True, threads=rng.choice(MR_THREADS),
+                sort=True, steps=S, wait='spin',
+                fixed_h=rng.random() < 0.5)
+        C += [c, dict(c, rep=1)]
     return C
 
 
@@ -1185,6 +1600,15 @@ def thorough_cfgs(rng):
                     rng.randint(2, 16), rng.choice([None, 1, 2, 3]),
                     rng.random() < 0.5)
             C += [c, dict(c, rep=1)]
+        # --fixed-h and the tuning knobs of every algorithm
+        for nn in NNPS_ALL:
+            for k in range(3):
+                omp = rng.random() < 0.5
+                C.append(cfg(p, nn, rng.random() < 0.5, omp,
+                             rng.randint(2, 16) if omp else 1,
+                             rng.choice([None, None, 2]), rng.random() < 0.5,
+                             fixed_h=(k == 0) or rng.random() < 0.3,
+                             knobs=rand_knobs(rng, nn, 0.0 if k == 0 else 0.8)))
         # default gids (UINT_MAX): sorted by local index
         for nn in ('ll', 'box', 'tree', 'sh'):
             C.append(cfg(p, nn, sort=True, assign_gid=False))
@@ -1199,6 +1623,7 @@ def thorough_cfgs(rng):
                              reorder=ro, sort=srt, steps=GTVF_STEPS))
     C += gtvf_cfgs(rng, 12)
     C += rarefy_cfgs(rng, every=True)
+    C += multires_cfgs(rng, every=True)
     T = []
     for nn in NNPS_ALL:
         if nn in ZORDER_FAMILY:
@@ -1209,6 +1634,8 @@ def thorough_cfgs(rng):
                          threads=rng.choice([2, 3, 7, 16]) if omp else 1,
                          reorder=None if nn in NO_REORDER else rng.choice([None, 1]),
                          sort=rng.random() < 0.5, steps=1))
+    for _ in range(3):
+        T += treetie_cfgs(rng)
     return dedup(C + T)
 
 
@@ -1239,6 +1666,7 @@ def search_cfgs(rng, aimed=()):
                              t['threads'], ro, t['sort'], steps=GTVF_STEPS))
     C += gtvf_cfgs(rng, 8)
     C += rarefy_cfgs(rng, every=True)
+    C += multires_cfgs(rng)
     return dedup(C)
 
 
@@ -1247,7 +1675,9 @@ def replay(a):
     case = rp['case']
     seed = case.get('seed', 0)
     R = H.Result('replay')
+    case['cfg'] = norm_cfg(case['cfg'])
     if 'baseline' in case:
+        case['baseline'] = norm_cfg(case['baseline'])
         cs = [case['baseline'], case['cfg']]
     else:
         cs = [base_cfg(case['cfg']['problem'], case['cfg']['steps']),
@@ -1255,6 +1685,10 @@ def replay(a):
     # judge() needs the plain baseline of the problem as well
     b0 = base_cfg(cs[1]['problem'], cs[1]['steps'])
     cs = dedup([b0] + cs)
+    if omp_threads_of(cs[-1]) > 1:
+        # the outcome may depend on the interleaving: a few more attempts
+        cs += [dict(cs[-1], rep=k) for k in (11, 12, 13)]
+        cs = dedup(cs)
     res = run_all(cs, seed, a.work)
     judge(res, R, seed)
     print(json.dumps(R.d['property_failures'], indent=1, default=str))
@@ -1296,8 +1730,12 @@ def main():
     t0 = time.time()
     res = run_all(cfgs, a.seed, a.work, par=8 if a.tier == 'quick' else 10)
     R.note('%d runs in %.0fs' % (len(res), time.time() - t0))
+    R.note('slowest runs: ' + ', '.join(
+        '%s %.0fs' % (cname(r['cfg']), r['wall']) for r in
+        sorted(res, key=lambda r: -r['wall'])[:6]))
     judge(res, R, a.seed)
     run_tie(res, R, rng)
+    run_treetie(res, R, rng)
     if a.broken or R.d['disagreements']:
         rng2 = random.Random(a.seed + 12345)
         aimed = [d['case']['cfg'] for d in R.d['disagreements']
